@@ -35,6 +35,7 @@ type Scenario struct {
 	Keys    [][]string // final reads
 	Max     Budget
 	Horizon int
+	Engine  string // "" = mem
 }
 
 func cost(e Event, idx int) int {
@@ -66,7 +67,11 @@ func usedBy(b *Budget, e Event) {
 // Run replays the choice prefix (an out-of-range choice is a hard error), then takes the default at every later point.
 func Run(sc Scenario, prefix []int, verbose bool) *Exec {
 	x := &Exec{}
-	c, err := New(sc.Progs)
+	eng := sc.Engine
+	if eng == "" {
+		eng = "mem"
+	}
+	c, err := NewWith(sc.Progs, eng)
 	if err != nil {
 		x.Infra = "start: " + err.Error()
 		if c != nil {
